@@ -37,8 +37,8 @@ Counter p_fault_strong("probe.fault_in_single_element_op");
 Counter p_fault_basic("probe.fault_in_multi_element_op");
 Counter p_fault_ctor("probe.fault_in_constructor");
 Counter p_riter("probe.reverse_iteration_nonempty");
-Counter p_elem[3] = { Counter("elem.Tracked.runs"), Counter("elem.MoveOnly.runs"),
-                      Counter("elem.CopyOnly.runs") };
+Counter p_elem[4] = { Counter("elem.Tracked.runs"), Counter("elem.MoveOnly.runs"),
+                      Counter("elem.CopyOnly.runs"), Counter("elem.Pod.runs") };
 
 // ---------------------------------------------------------------- instrumented elements
 enum Origin
@@ -266,6 +266,25 @@ struct CopyOnly : ElemCore
     static constexpr bool copyable = true;
     static constexpr int flavor = 2;
 };
+
+// a trivially copyable element (implementations may take memcpy/memmove short cuts for those).
+// Value-initialised storage reads as origin DEFAULT; there is nothing to count or to throw.
+struct Pod
+{
+    int32_t id;
+    int32_t origin;
+    Pod() = default;
+    explicit Pod(int v) : id(v), origin(O_CALLER)
+    {
+    }
+    bool alive() const
+    {
+        return true;
+    }
+    static constexpr bool copyable = true;
+    static constexpr int flavor = 3;
+};
+static_assert(std::is_trivially_copyable<Pod>::value, "Pod must stay trivially copyable");
 
 // ---------------------------------------------------------------- operations
 enum Kind
@@ -1467,7 +1486,7 @@ public:
     Plan generate(Rng& rng, const Config& cfg, int arm) override
     {
         Plan p;
-        int elem = static_cast<int>(rng.below(3));
+        int elem = rng.chance(1, 6) ? 3 : static_cast<int>(rng.below(3));
         p.knobs.emplace_back("elem", elem);
         // swarm: disable a random subset of op kinds for this run
         bool enabled[K_N];
@@ -1733,7 +1752,7 @@ public:
     }
     Outcome execute_once(const Plan& plan, const Config&)
     {
-        int elem = static_cast<int>(plan.knob("elem", 0) % 3);
+        int elem = static_cast<int>(plan.knob("elem", 0) % 4);
         p_elem[elem]++;
         switch (elem)
         {
@@ -1747,9 +1766,14 @@ public:
             Exec<MoveOnly> x;
             return x.run(plan);
         }
-        default:
+        case 2:
         {
             Exec<CopyOnly> x;
+            return x.run(plan);
+        }
+        default:
+        {
+            Exec<Pod> x;
             return x.run(plan);
         }
         }
